@@ -39,6 +39,8 @@ fn emit_vcmp(emit: &mut dyn FnMut(Op), w: &str, v: &str, api: bool) {
     emit(Op::s("dewey.vcmp", &[w, v]));
     if api && api_ok_w(w) && api_ok_v(v) {
         emit(Op::s("api.vcmp", &[w, v]));
+        // "also through best_match": the same pair as two candidates that both match
+        emit(Op::s("pattern.best", &["p-*", &format!("p-{}", w), &format!("p-{}", v)]));
     }
 }
 
@@ -160,6 +162,18 @@ fn gen_c01(tier: &str, rng: &mut Rng, emit: &mut dyn FnMut(Op)) {
             rand_version(rng, &toks, 4)
         };
         emit_vcmp(emit, &w, &v, rng.chance(1, 3));
+    }
+    // best_match on versions the rule calls equal although their component lists differ in
+    // length (padding), in both argument orders and under several pattern kinds
+    let pads = ["", ".0", ".", "_", "pl", ".0.0", "pl.", "0"];
+    for base in ["1", "1.0", "2.5", "1a", "1.0rc1", "3nb2", "10.20"] {
+        for x in pads {
+            for y in pads {
+                for pat in ["p-*", "p-[0-9]*", "p>=0", "{p,q}-[0-9]*"] {
+                    emit(Op::s("pattern.best", &[pat, &format!("p-{}{}", base, x), &format!("p-{}{}", base, y)]));
+                }
+            }
+        }
     }
 }
 
@@ -309,6 +323,10 @@ fn gen_c18(tier: &str, rng: &mut Rng, emit: &mut dyn FnMut(Op)) {
         emit(Op::s("summary.pkgsplit", &[n]));
         emit(Op::s("pkgname.dewey", &[n]));
     }
+    for (p, n) in [("foo<2", "foo-bar-1.0"), ("foo>=0", "foo-bar-1.0"), ("foo-bar>=0", "foo-bar-1.0"), ("pkg>=1.0nb3", "pkg-1.0nb9-0.5nb1"),
+        ("pkg-1.0nb9>=0", "pkg-1.0nb9-0.5nb1"), ("php56>=5", "php56-mysql-5.6"), ("a>=0", "a--1")] {
+        emit(Op::s("dewey.match", &[p, n]));
+    }
     for _ in 0..(if thorough { 20000 } else { 1000 }) {
         let k = rng.range(1, 6);
         let mut s = String::new();
@@ -322,6 +340,15 @@ fn gen_c18(tier: &str, rng: &mut Rng, emit: &mut dyn FnMut(Op)) {
         if let Some((b, _)) = s.rsplit_once('-') {
             if !b.contains(|c| "<>{}".contains(c)) {
                 emit(Op::s("dewey.match", &[&format!("{}>=0", b), &s]));
+            }
+        }
+        // ... and a base that stops at an EARLIER dash is not the name's PKGBASE: no match,
+        // whatever the bound
+        for (i, _) in s.match_indices('-') {
+            let b = &s[..i];
+            if !b.is_empty() && !b.contains(|c| "<>{}".contains(c)) {
+                emit(Op::s("dewey.match", &[&format!("{}>=0", b), &s]));
+                emit(Op::s("dewey.match", &[&format!("{}<99999999", b), &s]));
             }
         }
     }
@@ -776,7 +803,7 @@ pub fn gen(id: &str, tier: &str, rng: &mut Rng, emit: &mut dyn FnMut(Op)) {
                 });
             }
             // files are exercised by their own properties; C17 is about parsers and matchers
-            pool.retain(|o| !matches!(o.name.as_str(), "distinfo.verify" | "pkgdb.iter"));
+            pool.retain(|o| !matches!(o.name.as_str(), "distinfo.verify" | "entry.verify" | "pkgdb.iter"));
             let n = if tier == "thorough" { 60000 } else { 4000 };
             fuzz(&pool, n, rng, emit);
         }
